@@ -76,6 +76,15 @@ struct VmSharedReadonly {
     foreign_function_policies: Vec<ForeignCallPolicy>,
 }
 
+impl Drop for VmSharedReadonly {
+    fn drop(&mut self) {
+        // string constants are not on any task's heap list, so they are released here
+        for s_obj in self.static_strings.drain(..) {
+            let _ = unsafe { Box::from_raw(s_obj) };
+        }
+    }
+}
+
 /*
 The CLI or some other program will
    2. initialize the worker pool (pool of real OS threads which will run the green threads) (OR JUST USE RAYON)
